@@ -485,6 +485,10 @@ func (r *c20natcmp) Exec(op []string) string {
 	switch op[0] {
 	case "reset", "matrix":
 		return "-"
+	case "tr":
+		// mstr.Trunc inside a CompareNatural history (same process, same package state)
+		r.st.Note("trunc-inside-natcmp-history")
+		return (&c20trunc{st: r.st}).Exec(op)
 	case "cn2":
 		a, b := c20Unhex(op[1]), c20Unhex(op[2])
 		r.noteRuns(a, b)
@@ -605,6 +609,20 @@ func genC20Natcmp(g *G) {
 	}
 	ops = append(ops, "matrix")
 	g.Each(ops) // one fixed case: emitted by one generator shard only
+	// interleaved with Trunc (round-6 seed: byte-class tables shared by the two functions and initialised lazily in
+	// an order-dependent way): comparisons, then cuts inside multi-byte characters, then comparisons on digit runs
+	for i := 0; i < 6; i++ {
+		mixed := []string{"reset", fmt.Sprintf("cn2 %s %s", c20Hex([]byte("a1")), c20Hex([]byte("b")))}
+		for _, w := range []string{"a\u00e9b", "x\u20acy\U0001F600z", "\u00e9\u00e9"} {
+			for n := 1; n < len(w); n++ {
+				mixed = append(mixed, fmt.Sprintf("tr %s %d", c20Hex([]byte(w)), n))
+			}
+		}
+		for _, p := range [][2]string{{"a2", "a12"}, {"9", "10"}, {"01", "1"}, {"x007", "x7"}, {"a1b2", "a1b10"}} {
+			mixed = append(mixed, fmt.Sprintf("cn2 %s %s", c20Hex([]byte(p[0])), c20Hex([]byte(p[1]))))
+		}
+		g.Each(mixed)
+	}
 	// single triples from the same small scope (one op per case: these give the smallest witnesses)
 	small := c20StrsUpTo(alpha, 3)
 	for i := g.Scale(1500, 4000); i > 0; i-- {
